@@ -69,6 +69,11 @@ def render(trace, log_size=0, hidden=(), spacing=100_000, ka=30_000_000, join=2_
         elif k == "write_rejected":
             d = bytes.fromhex(e["data"])
             line = f"out wrej {core.hx(d[:-2].decode('utf-8', 'replace'))}"
+        elif k == "write_fault":
+            d = bytes.fromhex(e["data"])
+            out.append(f"{t} in wfault")
+            idx.append(e["seq"])
+            line = f"out wrej {core.hx(d[:-2].decode('utf-8', 'replace'))}"
         elif k == "read":
             line = f"out read {e['data'] or '-'}"
         elif k == "read_fault":
